@@ -39,6 +39,9 @@ def menu(d):
     M["regs-cross-terms"] = H + "\nMeasureX | 0\nG(q0*q1 + 0.5*q0 + 2*q1, k=q1*q2 - q2 + 3*q1) | 3\nH(q2*q0*q1 - q0 + q1*4) | 4\n"
     M["string-p-names"] = H + "\nG(\"p1\", tag=\"p20\", l=[\"p0\", \"q0\"]) | 0\n"
     M["prefix-names-2"] = H + "\nG({phi}/{phi_b}, 2*{r1}-{r}) | 0\nH(k={r}*{r1}*{r12}) | 1\n"
+    M["two-symbolic-kwargs"] = H + "\nG(1, alpha={a}*2, beta={b}-1, gamma={a}+{b}, delta=0.5) | 0\nH(zeta={c}, eta={a}) | 1\n"
+    M["regs-float-sum"] = H + "\nG(0.1*q0 + 0.2*q1 + 0.3*q2 + 0.25) | 3\n"
+    M["regs-float-sum-cancelling"] = H + "\nH(k=1.0e16*q0 + 1.5*q1 - 1.0e16*q2) | 4\n"
     M["regs-q1-q10"] = H + "\nG(q10-2*q1, k=q1/q10) | 0\n"
     M["params-and-regs"] = H + "\nG({a}+{alpha}, q1-q0) | 0\nH({b}) | [1, 0]\n"
     M["array-params"] = H + "\nfloat array A =\n    {a}, 1\n    {alpha}, {b}\nG({a}) | 0\n"
